@@ -289,6 +289,65 @@ def expand_wrapper_decorators(tree):
             tree.body = [b for b in tree.body if b is not st]
 
 
+def genexp_helpers_as_generators(tree):
+    """N29.  A function (or method) whose whole body is
+
+        return (ELT for a in A if c for b in B ...)
+
+    is read as the generator function
+
+        for a in A:
+            if c:
+                for b in B:
+                    yield ELT
+
+    Both hand out the same elements in the same order; the only difference
+    (A is evaluated at the call instead of at the first `next`) is not
+    observable by a consumer that iterates the result where it calls.  The
+    generator inlining of the normaliser (N13) then applies.  Names bound
+    by the comprehension must not clash with the parameters."""
+    n = 0
+    for fn in ast.walk(tree):
+        if not isinstance(fn, ast.FunctionDef) or fn.decorator_list:
+            continue
+        body = [b for b in fn.body if not (isinstance(b, ast.Expr) and
+                                           isinstance(b.value, ast.Constant))]
+        if len(body) != 1 or not (isinstance(body[0], ast.Return) and
+                                  isinstance(body[0].value, ast.GeneratorExp)):
+            continue
+        ge = body[0].value
+        if any(g.is_async for g in ge.generators):
+            continue
+        params = {a.arg for a in fn.args.posonlyargs + fn.args.args +
+                  fn.args.kwonlyargs}
+        for x in (fn.args.vararg, fn.args.kwarg):
+            if x is not None:
+                params.add(x.arg)
+        bound = {t.id for g in ge.generators for t in ast.walk(g.target)
+                 if isinstance(t, ast.Name)}
+        if bound & params or any(isinstance(x, (ast.NamedExpr, ast.Yield,
+                                                ast.YieldFrom, ast.Lambda,
+                                                ast.GeneratorExp,
+                                                ast.ListComp, ast.SetComp,
+                                                ast.DictComp))
+                                 for g in [ge] for x in ast.walk(g)
+                                 if x is not ge):
+            continue
+        inner = [ast.Expr(value=ast.Yield(value=ge.elt))]
+        for g in reversed(ge.generators):
+            for c in reversed(g.ifs):
+                inner = [ast.If(test=c, body=inner, orelse=[])]
+            inner = [ast.For(target=g.target, iter=g.iter, body=inner,
+                             orelse=[], type_comment=None)]
+        for st in inner:
+            ast.copy_location(st, body[0])
+        new = [b for b in fn.body if b is not body[0]] + inner
+        fn.body = new
+        ast.fix_missing_locations(fn)
+        n += 1
+    return n
+
+
 class SrcDB(object):
     def __init__(self, repo=REPO, pkg=PKG, trees=None):
         self.repo = repo
@@ -334,6 +393,7 @@ class SrcDB(object):
         if self.trees is None:
             for m in self.modules.values():
                 expand_wrapper_decorators(m.tree)
+                genexp_helpers_as_generators(m.tree)
         for m in self.modules.values():
             self._index_module(m)
 
